@@ -15,6 +15,9 @@ package ollama
 //	            follow2_matches_nethttp (the model's `follow`, incl. "the body kind of the ORIGINAL
 //	            request decides").
 //
+//	begin.txt   the decisions at the start of a layer (`c.Get` size shortcut, `c.Chunked` pre-validated Chunker or
+//	            O_CREATE) over every blob file length (none, 0..3) × manifest size 0..3.  Consumed by
+//	            Tie.C09.beginLayer_matches_model (the model's `shortcut`, `prevalidated`, `ensureFile`).
 //	verify.txt  the real verifyLayer on every relation between the blob file and the manifest entry (exact,
 //	            short, oversized with the right prefix, wrong content, empty, missing): passes? file kept?
 //	            Consumed by Tie.C09.verifyLayer_matches_model (the model's `verifyPass`).
@@ -195,6 +198,40 @@ func TestVerifC09Tables(t *testing.T) {
 		vlines = append(vlines, fmt.Sprintf("%s %d %d", sc.name, b2i0(verr == nil), b2i0(serr == nil)))
 	}
 	if err := os.WriteFile(filepath.Join(outdir, "verify.txt"), []byte(strings.Join(vlines, "\n")+"\n"), 0o644); err != nil {
+		t.Fatal(err)
+	}
+
+	// ---- begin.txt: what Pull decides at the start of a layer, over every (blob file length | no file) × manifest
+	// size in 0..3: the size shortcut (`c.Get` succeeds with that size), else whether `c.Chunked` hands out the
+	// file-less pre-validated Chunker (its Close fails on the nil file), and whether a blob file exists afterwards
+	var blines []string
+	for flen := -1; flen <= 3; flen++ {
+		for size := 0; size <= 3; size++ {
+			c, err := blob.Open(t.TempDir())
+			if err != nil {
+				t.Fatal(err)
+			}
+			d := c09Dig([]byte("begin"))
+			if flen >= 0 {
+				if err := os.WriteFile(c.GetFile(d), make([]byte, flen), 0o644); err != nil {
+					t.Fatal(err)
+				}
+			}
+			info, gerr := c.Get(d)
+			shortcut := gerr == nil && info.Size == int64(size)
+			pre := false
+			if !shortcut {
+				ch, cerr := c.Chunked(d, int64(size))
+				if cerr != nil {
+					t.Fatal(cerr)
+				}
+				pre = ch.Close() != nil
+			}
+			_, serr := os.Stat(c.GetFile(d))
+			blines = append(blines, fmt.Sprintf("%d %d %d %d %d", flen, size, b2i0(shortcut), b2i0(pre), b2i0(serr == nil)))
+		}
+	}
+	if err := os.WriteFile(filepath.Join(outdir, "begin.txt"), []byte(strings.Join(blines, "\n")+"\n"), 0o644); err != nil {
 		t.Fatal(err)
 	}
 
